@@ -6,7 +6,7 @@ setorder : E5 seam. `set` is shadowed in eyecite's module namespaces by a subcla
            with <= 1 (quick) / <= 2 (thorough) deviating iterations per execution.
 seeds    : seam validation - the same corpus serialised in fresh subprocesses under several
            PYTHONHASHSEED values and diffed (also catches set literals/comprehensions the seam cannot see).
-histories: E3 - every call history of <= 3 calls over 6 operations, each history in a freshly forked
+histories: E3 - every call history of <= 3 calls over 9 operations, each history in a freshly forked
            process (cold lazy state), for the shared default tokenizer and a shared Hyperscan instance.
 threads  : E4 - 2 threads x 1 call each sharing the default tokenizer, every schedule with <= k
            preemptions at line granularity (opcode granularity inside tokenizers.py/models.py).
@@ -39,7 +39,7 @@ TECHNIQUE = (
 RULE = (
     "setorder: corpus = all documents of <= 2 fragments of A1 (tie-rich) + every reporter string on which two extractors match "
     "the same span; per document every iteration of a controlled set x every order of the order menu; histories: all "
-    "sequences of <= 3 operations over 6 operations x 2 tokenizers; threads: all schedules within the preemption bound of "
+    "sequences of <= 3 operations over 9 operations x 2 tokenizers; threads: all schedules within the preemption bound of "
     "2-thread harnesses over colliding texts with cold lazy state. distinct = distinct (text, order plan) / history / schedule; "
     "non-trivial = an execution that deviates from the default order / has >= 2 calls / has >= 1 context switch."
 )
@@ -59,6 +59,10 @@ OPS = [
     ("joke", {"text": "eyecite"}),
     ("markup", {"markup": "<p><i>Foo v. Bar</i>, 1 U.S. 1 (1999). In <i>Bar</i> we held.</p>"}),
     ("ra", {"text": "Foo v. Bar, 1 Wash. 2d 3. 1 Marsh. 2", "remove_ambiguous": True}),
+    # the same inputs again with other options: state keyed on the text alone would leak between them
+    ("t1ra", {"text": "Foo v. Bar, 1 U.S. 1 (1999). Id. at 5. supra,§,", "remove_ambiguous": True}),
+    ("markup2", {"markup": "<p><i>Foo v. Bar</i>, 1 U.S. 1 (1999). In <i>Bar</i> we held.</p>", "steps": ["html"]}),
+    ("t4", {"text": "Adarand v. Pena, 515 U.S. ___ (1995). Adarand, 515 U.S., at ___. See 1 F.2d at ___."}),
 ]
 THREAD_HARNESSES = [
     ("Foo v. Bar, 1 U.S. 1. Id.", "See 2 U.S. 2, 3."),
@@ -89,9 +93,10 @@ def install_seam():
 def run_op(op, tok="AC"):
     tk = tokenizer(tok)
     if "markup" in op:
-        steps = ["html", "all_whitespace"]
+        steps = list(op.get("steps", ["html", "all_whitespace"]))
+        before = list(steps)
         cits = get_citations(markup_text=op["markup"], clean_steps=steps, tokenizer=tk)
-        assert steps == ["html", "all_whitespace"]
+        assert steps == before, "clean_steps argument was modified"
     else:
         cits = get_citations(op["text"], remove_ambiguous=op.get("remove_ambiguous", False), tokenizer=tk)
     return cits
